@@ -17,8 +17,9 @@ Independently of the model, the **spec oracle** judges what the implementation d
 observations alone: no getter invoked twice; getters of Adds that started after a Close returned are
 never invoked; when a run ends quiescent (in contract, connection alive) every getter of an Add
 that returned before any Close began was invoked once, and if not nil flushed once, nothing appended
-left unflushed; a Close that returns nil while no Add is in flight has all completed Adds' getters
-invoked.  One output line per run, one `SUMMARY` line.
+left unflushed; a Close that returns nil and was not overlapped by any Add call has all earlier Adds'
+getters invoked (unless the `closed` it loaded was stored by a worker whose exit check predates the Close:
+the two known findings).  One output line per run, one `SUMMARY` line.
 -/
 open Netpoll.Shard
 
@@ -90,6 +91,7 @@ structure AddInfo where
   ids : List Nat
   started : Bool := false
   returned : Bool := false
+  beforeClose : Bool := false -- started before any Close step
   must : Bool := false       -- returned before any Close step: "added to an active queue"
   mustNot : Bool := false    -- started after a Close returned nil
   deriving Inhabited
@@ -222,7 +224,7 @@ def oracleStep (r : Run) (ln : Nat) (actor site : String) (extra : List String) 
     match r.adds.get? actor with
     | some a =>
       if ¬ a.started then
-        r := { r with adds := r.adds.insert actor { a with started := true, mustNot := r.closeReturned } }
+        r := { r with adds := r.adds.insert actor { a with started := true, mustNot := r.closeReturned, beforeClose := ¬ r.closeBegan } }
     | none => pure ()
   if actor.startsWith "W" then
     -- a worker's exit check is its load of trigger that is not the first step of its closure
@@ -253,12 +255,14 @@ def oracleRet (r : Run) (ln : Nat) (actor kind : String) : Run := Id.run do
     r := { r with closeReturned := true }
     -- Close waits: with no Add in flight, every completed Add's getters have been handled
     let infos := r.adds.toList.map (·.2)
-    let inflight := infos.any fun a => a.started ∧ ¬ a.returned
+    -- an Add call that overlaps the Close call (began before it, had not returned when it began): the known
+    -- finding `close-early-inflight` needs one (it may have returned by now, after Close's observation)
+    let inflight := infos.any fun a => a.started ∧ a.beforeClose ∧ ¬ a.must
     let unhandled := infos.any fun a => a.returned ∧ ¬ a.mustNot ∧ a.must ∧ a.ids.any fun x => ¬ r.last.inv.contains x
     if unhandled ∧ r.last.al = 1 ∧ ¬ r.died ∧ ¬ r.emptyAdd ∧ ¬ r.idxWrap then
       if inflight then r := { r with kfCloseEarly := r.kfCloseEarly + 1 }
       else if r.staleClosed then r := { r with kfCloseStale := r.kfCloseStale + 1 }
-      else r := setSpec r ln "Close returned nil with no Add in flight while a getter of a completed Add was not invoked"
+      else r := setSpec r ln "Close returned nil, no Add call overlapped it, and a getter of an Add that had returned before was not invoked"
   return r
 
 def oracleEnd (r : Run) (ln : Nat) (result : String) (nilIds : List Nat) : Run := Id.run do
